@@ -355,18 +355,19 @@ struct Observed
 	has_file: bool,
 }
 
-fn kind_of(msgs: &[String]) -> String
+/// kind of a diagnostic from the STRUCTURE of the error value (errkind.rs: downcasts, no message text): the innermost error decides
+fn kind_of(e: &(dyn std::error::Error + 'static)) -> String
 {
-	let last = msgs.last().map(String::as_str).unwrap_or("");
-	let table: [(&str, &str); 11] = [("reserved name", "reserved"), ("duplicate global constant", "dupGlobal"), ("duplicate local constant", "dupLocal"),
-		("duplicate constant", "dupConst"), ("no such global constant", "nfGlobal"), ("no such local constant", "nfLocal"),
-		("declared global constant", "defGlobal"), ("declared local constant", "defLocal"), ("constant out of range", "range"),
-		("invalid argument #", "argType"), ("assembly of", "asmFailed")];
-	if last.starts_with("argument #") && last.ends_with("is out of range") {return "valueRange".to_owned();}
-	if last.starts_with("label out of range") {return "labelRange".to_owned();}
-	if last.starts_with("misaligned label") {return "labelAlign".to_owned();}
-	for (pre, k) in table {if last.starts_with(pre) {return k.to_owned();}}
-	format!("other[{}]", msgs.join(" <- ").replace(' ', "_"))
+	use crate::errkind::{diag_kind, inner_kind, innermost};
+	let top = diag_kind(e);
+	if top.starts_with("dir.argtype.") || top.starts_with("instr.argtype.") {return "argType".to_owned();}
+	let k = inner_kind(innermost(e));
+	let table: [(&str, &str); 14] = [("const.reserved", "reserved"), ("duplicate.global", "dupGlobal"), ("duplicate.local", "dupLocal"),
+		("constdir.duplicate", "dupConst"), ("nosuch.global", "nfGlobal"), ("nosuch.local", "nfLocal"),
+		("global.deferred.global", "defGlobal"), ("global.deferred.local", "defLocal"), ("data.range.", "range"),
+		("asm.valuerange.", "valueRange"), ("const.range.", "labelRange"), ("const.alignment.", "labelAlign"), ("include.failed", "asmFailed"), ("include.nosuchfile", "noFile")];
+	for (pre, name) in table {if k.starts_with(pre) {return name.to_owned();}}
+	format!("other[{top}]")
 }
 
 fn observe(p: &Project, dir: &PathBuf, fl: &Flat, names: &[String]) -> Observed
@@ -409,17 +410,10 @@ fn observe(p: &Project, dir: &PathBuf, fl: &Flat, names: &[String]) -> Observed
 		}
 		for err in ctx.get_errors()
 		{
-			let mut msgs = vec![format!("{}", &err.value)];
-			let mut src = std::error::Error::source(&err.value);
-			while let Some(s) = src
-			{
-				msgs.push(format!("{s}"));
-				src = s.source();
-			}
 			let name = err.name.as_str();
 			let file = name.rsplit('/').next().and_then(|f| f.strip_prefix('f')).and_then(|f| f.strip_suffix(".asm")).and_then(|f| f.parse::<u64>().ok());
 			let tag = match file {Some(f) => f * 1000 + err.line as u64, None => 999_999};
-			o.diags.push((tag, kind_of(&msgs)));
+			o.diags.push((tag, kind_of(&err.value)));
 		}
 		for n in names
 		{
@@ -1140,9 +1134,9 @@ impl trion::asm::directive::Directive for Probe
 		let value = match args.value.get(1) {Some(Argument::Constant(Number::Integer(v))) => *v, Some(Argument::Negate(b)) => match b.as_ref() {Argument::Constant(Number::Integer(v)) => -*v, _ => 0}, _ => 0};
 		let out = match *self
 		{
-			Probe::Replace(r) => match ctx.replace_constant(&name, value, r) {Ok(prev) => format!("ok {}", lookup_text(prev)), Err(e) => format!("err {e}")},
-			Probe::Insert(r) => match ctx.insert_constant(&name, value, r) {Ok(fresh) => format!("ok {fresh}"), Err(e) => format!("err {e}")},
-			Probe::Defer(r) => match ctx.defer_constant(&name, r) {Ok(()) => "ok".to_owned(), Err(e) => format!("err {e}")},
+			Probe::Replace(r) => match ctx.replace_constant(&name, value, r) {Ok(prev) => format!("ok {}", lookup_text(prev)), Err(e) => format!("err {}", crate::errkind::inner_kind(&e))},
+			Probe::Insert(r) => match ctx.insert_constant(&name, value, r) {Ok(fresh) => format!("ok {fresh}"), Err(e) => format!("err {}", crate::errkind::inner_kind(&e))},
+			Probe::Defer(r) => match ctx.defer_constant(&name, r) {Ok(()) => "ok".to_owned(), Err(e) => format!("err {}", crate::errkind::inner_kind(&e))},
 			Probe::Get(r) => lookup_text(ctx.get_constant(&name, r)),
 		};
 		PROBE_LOG.with(|l| l.borrow_mut().push(out));
@@ -1210,25 +1204,25 @@ fn table_reference(ops: &[TOp]) -> (Vec<String>, Vec<i64>)
 		{
 			TOp::Replace(r, n, v) =>
 			{
-				if is_reg(n) {log.push(format!("err reserved name {n:?}")); continue;}
+				if is_reg(n) {log.push("err const.reserved".to_owned()); continue;}
 				let prev = show(tabs[idx(r)].get(n));
 				tabs[idx(r)].insert(n.clone(), Some(*v));
 				log.push(format!("ok {prev}"));
 			},
 			TOp::Insert(r, n, v) =>
 			{
-				if is_reg(n) {log.push(format!("err reserved name {n:?}")); continue;}
+				if is_reg(n) {log.push("err const.reserved".to_owned()); continue;}
 				match tabs[idx(r)].get(n).copied()
 				{
 					None => {tabs[idx(r)].insert(n.clone(), Some(*v)); log.push("ok true".to_owned());},
 					Some(None) => {tabs[idx(r)].insert(n.clone(), Some(*v)); log.push("ok false".to_owned());},
-					Some(Some(_)) => log.push(format!("err duplicate {} constant {n}", realm_name(r))),
+					Some(Some(_)) => log.push(format!("err duplicate.{}", realm_name(r))),
 				}
 			},
 			TOp::Defer(r, n) =>
 			{
-				if is_reg(n) {log.push(format!("err reserved name {n:?}")); continue;}
-				if tabs[idx(r)].contains_key(n) {log.push(format!("err duplicate {} constant {n}", realm_name(r)));}
+				if is_reg(n) {log.push("err const.reserved".to_owned()); continue;}
+				if tabs[idx(r)].contains_key(n) {log.push(format!("err duplicate.{}", realm_name(r)));}
 				else {tabs[idx(r)].insert(n.clone(), None); log.push("ok".to_owned());}
 			},
 			TOp::Get(r, n) => log.push(show(tabs[idx(r)].get(n))),
@@ -1261,7 +1255,7 @@ fn check_table(cx: &mut Cx, ops: &[TOp])
 		let fin = ctx.finalize();
 		let mut image = Vec::new();
 		for (range, seg) in ctx.output().iter() {if range.get_first() == BASE {image = seg.to_vec();}}
-		let errs: Vec<String> = ctx.get_errors().iter().map(|e| format!("{e}")).collect();
+		let errs: Vec<String> = ctx.get_errors().iter().map(|e| format!("{}:{}:{}", e.line, e.col, crate::errkind::diag_kind(&e.value))).collect();
 		(r.is_ok(), closed, fin, image, errs, clash)
 	});
 	let log = PROBE_LOG.with(|l| l.borrow().clone());
